@@ -95,6 +95,29 @@ def strip_comments(src):
     return "".join(out)
 
 
+def failing_decls(build_output):
+    """map `error: path:line:col` of a failed lake build to the enclosing theorem/def names"""
+    names = []
+    for m in re.finditer(r"error: (\S+?\.lean):(\d+):\d+", build_output):
+        path, line = os.path.join(LEAN, m.group(1)), int(m.group(2))
+        if not os.path.exists(path):
+            continue
+        src = open(path).read().split("\n")
+        ns = ""
+        for l in src[:line]:
+            mm = re.match(r"namespace (\S+)", l)
+            if mm:
+                ns = mm.group(1)
+        for i in range(min(line, len(src)) - 1, -1, -1):
+            mm = re.match(r"\s*(?:theorem|def|example|lemma)\s+(\S+)", src[i])
+            if mm:
+                n = (ns + "." if ns else "") + mm.group(1)
+                if n not in names:
+                    names.append(n)
+                break
+    return names
+
+
 def forbidden_scan():
     hits = []
     for p in lean_files():
@@ -323,18 +346,40 @@ def step_lean(cx, spec):
     targets = spec.get("lean_targets", [])
     theorems = spec.get("theorems", [])
     with Lock("lean"):
-        if spec.get("pre_lean"):
-            spec["pre_lean"](cx)
+        # T1: regenerate BB/Gen/*.lean from /repo's current working tree (files are rewritten only when they change)
+        if "extract" in cx.bins:
+            for fn in ("Consts.lean", "Skel.lean"):
+                pass
+            rc0, o0 = run([cx.bins["extract"], REPO, os.path.join(LEAN, "BB", "Gen")], timeout=300)
+            cx.extract_out = o0.strip()
+            if rc0 != 0:
+                cx.add_obligation("extract (translator) runs on /repo", False, o0[-2000:])
         rc, o = lake_build(targets + ["oracle"])
+        failed_mods, failed_decls = set(), set()
         if rc != 0:
-            # attribute: try each target separately so the rest is still checked
+            # attribute: build each target separately so that the rest is still checked
             cx.lean_output = o
             for t in targets:
                 rc1, o1 = lake_build([t])
                 if rc1 != 0:
-                    cx.add_obligation(f"lake build {t}", False, o1[-3000:])
-        res, out = audit(cx.prop, targets, theorems, cx.work, allow_extra=spec.get("allow_axioms", ()))
+                    failed_mods.add(t)
+                    names = failing_decls(o1)
+                    if names:
+                        for n in names:
+                            failed_decls.add(n)
+                            cx.add_obligation(n, False, "does not check against the regenerated facts / model: " + o1[-1500:])
+                    else:
+                        cx.add_obligation(f"lake build {t}", False, o1[-3000:])
+        good = [t for t in targets if t not in failed_mods]
+        res, out = audit(cx.prop, good, [t for t in theorems if not any(t.startswith(m + ".") for m in failed_mods)], cx.work,
+                         allow_extra=spec.get("allow_axioms", ()))
     for t in theorems:
+        if t in failed_decls:
+            continue
+        if any(t.startswith(m + ".") for m in failed_mods):
+            # Lean elaborates the whole file and reports every failing declaration: this one was not among them
+            cx.add_obligation(t, True, "elaborated; its module has other failing declarations, so no .olean to audit axioms from")
+            continue
         ok, detail = res.get(t, (False, "missing"))
         cx.add_obligation(t, ok, detail)
     hits = forbidden_scan()
@@ -504,7 +549,7 @@ def check(prop, tier, seed):
     from props import PROPS
     spec = PROPS[prop]
     cx = Ctx(prop, tier, seed)
-    ok = step_build(cx, spec.get("tools", ("corr",)))
+    ok = step_build(cx, spec.get("tools", ("corr", "extract")))
     failed = step_lean(cx, spec)
     for (name, detail) in failed:
         # a proof obligation broke: search (spec['search']) for a failing input, else report without
@@ -521,16 +566,18 @@ def check(prop, tier, seed):
 
 def setup():
     os.makedirs(BUILD, exist_ok=True)
-    rc, o = lake_build([], timeout=3600)
-    print(o[-3000:])
-    if rc != 0:
-        return rc
-    r = build_go(os.path.join(BUILD, "setup"), ("corr",))
+    r = build_go(os.path.join(BUILD, "setup"), ("corr", "extract"))
     for t, (rc, o, out) in r.items():
         if rc != 0:
             print(o)
             return rc
-    return 0
+    rc, o = run([r["extract"][2], REPO, os.path.join(LEAN, "BB", "Gen")], timeout=300)
+    print(o.strip())
+    if rc != 0:
+        return rc
+    rc, o = lake_build([], timeout=3600)
+    print(o[-3000:])
+    return rc
 
 
 def replay(path):
